@@ -55,6 +55,56 @@ def inplace2 (f : Int → Int → Int) (a : AState) (h g : Nat) : AState × Out 
     | _, _ => (a, .err)
   | _, _ => (a, .noobj)
 
+/-- the target accumulates a function of its own value and of the source's value -/
+def accum (a : AState) (dst src : Nat) (K : List Int → List Int → List Int) : AState × Out :=
+  match getSlot a.pool dst, getSlot a.pool src with
+  | some (some (sd, Y)), some (some (_, X)) => (setT a dst (some (some (sd, K Y X))), .ok)
+  | _, _ => (a, .err)
+
+def bwOp (a : AState) (gy gx : Nat) (ok : Shape → Shape → R Bool)
+    (K : Shape → Shape → List Int → List Int → List Int) : AState × Out :=
+  match getSlot a.pool gy, getSlot a.pool gx with
+  | some vy, some vx =>
+    if gy = gx then (a, .alias) else
+    match vy, vx with
+    | some (sy, _), some (sx, _) =>
+      match ok sy sx with
+      | .error .crash => (a, .crash)
+      | .error .error => (a, .err)
+      | .ok false => (a, .err)
+      | .ok true => accum a gx gy (K sy sx)
+    | _, _ => (a, .err)
+  | _, _ => (a, .noobj)
+
+def abBwOp (g : Int → Int → Int) (a : AState) (gy ga gb : Nat) : AState × Out :=
+  match getSlot a.pool gy, getSlot a.pool ga, getSlot a.pool gb with
+  | some vy, some va, some vb =>
+    if gy = ga ∨ gy = gb ∨ ga = gb then (a, .alias) else
+    match vy, va, vb with
+    | some (sy, _), some (sa, _), some (sb, _) =>
+      match abBwOk sy sa sb with
+      | .error .crash => (a, .crash)
+      | .error .error => (a, .err)
+      | .ok false => (a, .err)
+      | .ok true =>
+        let r1 := accum a ga gy (fun D S => arith (· + ·) sa sy D (some S))
+        match r1.2 with
+        | .ok => accum r1.1 gb gy (fun D S => arith g sb sy D (some S))
+        | _ => r1
+    | _, _, _ => (a, .err)
+  | _, _, _ => (a, .noobj)
+
+/-- `g = F(h)`: a new tensor with the contents of `h` and the shape `rule (shape h)` -/
+def freshOp (a : AState) (h g : Nat) (rule : Shape → R Shape) : AState × Out :=
+  match getSlot a.pool h with
+  | none => (a, .noobj)
+  | some none => (a, .err)
+  | some (some (sh, vs)) =>
+    match rule sh with
+    | .error .crash => (a, .crash)
+    | .error .error => (a, .err)
+    | .ok rsh => (setT a g (some (some (rsh, fitTo rsh.size vs))), .ok)
+
 def readAllFrom : Nat → List (Option AVal) → List (Nat × AVal)
   | _, [] => []
   | i, none :: rest => readAllFrom (i + 1) rest
@@ -130,6 +180,34 @@ def step (a : AState) : Op → AState × Out
   | .pdrop p =>
     let a1 := setT (setT a (vslot p) none) (gslot p) none
     ({ a1 with pvalid := setFlag a1.pvalid p false }, .ok)
+  | .diadd h g => inplace2 (· + ·) a h g
+  | .disub h g => inplace2 (· - ·) a h g
+  | .dimul h k => inplace1 a h (fun n D => scale n k D)
+  | .dsliceBw gy dim off gx => bwOp a gy gx (sliceBwOk dim off) (sliceBwK dim off)
+  | .dpickBw gy dim ids gx =>
+    bwOp a gy gx (pickBwOk dim ids) (fun sy sx D S => scatter (· + ·) (pickIdx sy sx dim ids) D S)
+  | .dflipBw gy dim gx => bwOp a gy gx flipBwOk (fun _ sx D S => scatter (· + ·) (flipIdx sx dim) D S)
+  | .dtransposeBw gy gx =>
+    bwOp a gy gx transposeBwOk (fun sy sx D S => arith (· + ·) sx sx D (some (transposeData sy S)))
+  | .daddBw gy ga gb => abBwOp (· + ·) a gy ga gb
+  | .dsubBw gy ga gb => abBwOp (· - ·) a gy ga gb
+  | .piaddGrad p g =>
+    match getSlot a.pool g with
+    | none => (a, .noobj)
+    | some _ => if a.pvalid.getD p false then inplace2 (· + ·) a (gslot p) g else (a, .err)
+  | .fcopy h g => freshOp a h g (fun sh => pure sh)
+  | .fpositive h g =>
+    match getSlot a.pool h with
+    | none => (a, .noobj)
+    | some none => (a, .err)
+    | some (some v) => (setT a g (some (some v)), .ok)
+  | .fconcat1 h g dim => freshOp a h g (fun sh => ShapeOps.concat [sh] dim)
+  | .fbconcat1 h g => freshOp a h g (fun sh => ShapeOps.batchConcat [sh])
+  | .probe fn h =>
+    match getSlot a.pool h with
+    | none => (a, .noobj)
+    | some none => (a, .err)
+    | some (some (sh, _)) => if probeOk fn sh then (a, .ok) else (a, .err)
   | .live => (a, .nat 0)            -- the abstract state has no buffers; see `Cow.no_leak`
   | .readall => (a, .all (readAllFrom 0 a.pool))
 
@@ -162,7 +240,21 @@ def targets : Op → List Nat
   | .ptensor _ g => [g]
   | .piaddValue p _ => [vslot p]
   | .pdrop p => [vslot p, gslot p]
-  | .read _ | .shape _ | .valid _ | .device _ | .live | .readall => []
+  | .diadd h _ => [h]
+  | .disub h _ => [h]
+  | .dimul h _ => [h]
+  | .dsliceBw _ _ _ gx => [gx]
+  | .dpickBw _ _ _ gx => [gx]
+  | .dflipBw _ _ gx => [gx]
+  | .dtransposeBw _ gx => [gx]
+  | .daddBw _ ga gb => [ga, gb]
+  | .dsubBw _ ga gb => [ga, gb]
+  | .piaddGrad p _ => [gslot p]
+  | .fcopy _ g => [g]
+  | .fpositive _ g => [g]
+  | .fconcat1 _ g _ => [g]
+  | .fbconcat1 _ g => [g]
+  | .read _ | .shape _ | .valid _ | .device _ | .live | .readall | .probe _ _ => []
 
 end Spec
 end Primitiv.Cow
